@@ -169,7 +169,6 @@ import json
 import re
 from string import Template
 import sys
-from urllib import parse as urlparse
 
 from webob.acceptparse import create_accept_header
 from webob.request import Request
@@ -596,7 +595,14 @@ ${html_comment}"""
             if req.environ.get("QUERY_STRING"):
                 url += "?" + req.environ["QUERY_STRING"]
             self.location = url
-        self.location = urlparse.urljoin(req.path_url, self.location)
+
+        if self.location:
+            # the same resolution (and the same protection against a
+            # location that urljoin would take for a network-path
+            # reference) as for any other response
+            self.location = self._make_location_absolute(environ, self.location)
+        else:
+            self.location = req.path_url
 
         return super().__call__(environ, start_response)
 
